@@ -1,2 +1,80 @@
--- line-protocol model driver for C16 (stub)
-def main : IO Unit := IO.println "stub C16"
+/- Line-protocol model driver for C16 (stream read / write state machines).
+     W <len> <dgram 0|1> <answers…>                              one write/send/send-to operation
+     R <n> <chunk 0|1> <recvfrom 0|1> <base> <inclen> <answers…>  one read/recv/recv-from operation
+   answers:  b<k> (k bytes) | a (EAGAIN) | i (EINTR) | e<code> (other errno)
+   A readiness event is assumed after every would-block / partial result (the answers are consumed event by event).
+   Output:  res=<pending|done|nil|buf|failed:…|starved> start|read=<n> left=<n> calls=<off>:<len>:<got>,…
+-/
+import Driver.Util
+import JanetModel.Stream.Model
+open Driver JanetModel.Stream
+
+def parseAns (t : String) : Option Ans :=
+  match t.toList with
+  | ['a'] => some .eagain
+  | ['i'] => some .eintr
+  | 'b' :: r => (String.ofList r).toNat?.map .bytes
+  | 'e' :: r => (String.ofList r).toNat?.map .err
+  | _ => none
+
+def parseAnss : List String → Option (List Ans)
+  | [] => some []
+  | t :: ts => do
+    let a ← parseAns t
+    let as ← parseAnss ts
+    some (a :: as)
+
+def showCalls (cs : List Call) : String :=
+  String.intercalate "," (cs.map fun c => s!"{c.off}:{c.len}:{c.got}")
+
+def showWRes : WRes → String
+  | .pending => "pending"
+  | .done => "done"
+  | .failed (.sys c) => s!"failed:sys{c}"
+  | .failed .disconnect => "failed:disconnect"
+  | .failed .closed => "failed:closed"
+  | .failed .streamErr => "failed:err"
+  | .failed .hup => "failed:hup"
+  | .starved => "starved"
+
+def showRRes : RRes → String
+  | .pending => "pending"
+  | .nil _ => "nil"
+  | .buf r => "buf:" ++ (match r with | .full => "full" | .eof => "eof" | .nonchunk => "nonchunk" | .errEvent => "err")
+  | .failed c => s!"failed:sys{c}"
+  | .starved => "starved"
+
+/-- consume the answers event by event: a new readiness event after every `pending` -/
+def flatWrite (len : Nat) (dgram : Bool) : Nat → Nat → List Ans → List Call → (Nat × WRes × List Call)
+  | 0, start, _, acc => (start, .starved, acc)
+  | fuel + 1, start, as, acc =>
+    let o := writeEvent len dgram start as
+    match o.res with
+    | .pending => if o.rest.isEmpty then (o.start, .pending, acc ++ o.calls) else flatWrite len dgram fuel o.start o.rest (acc ++ o.calls)
+    | r => (o.start, r, acc ++ o.calls)
+
+def flatRead (chunk recvfrom : Bool) (base : Nat) : Nat → RSt Nat → List Ans → List Call → (RSt Nat × RRes × List Call)
+  | 0, st, _, acc => (st, .starved, acc)
+  | fuel + 1, st, as, acc =>
+    let o := readLoop chunk recvfrom JanetModel.Gen.Stream.chunkReadLimit base st as
+    match o.res with
+    | .pending => if o.rest.isEmpty then (o.st, .pending, acc ++ o.calls) else flatRead chunk recvfrom base fuel o.st o.rest (acc ++ o.calls)
+    | r => (o.st, r, acc ++ o.calls)
+
+def step (_ : Unit) (toks : List String) : Unit × String :=
+  match toks with
+  | "W" :: len :: dg :: rest =>
+    match len.toNat?, parseAnss rest with
+    | some len, some as =>
+      let (start, r, calls) := flatWrite len (dg == "1") (as.length + 2) 0 as []
+      ((), s!"res={showWRes r} start={start} calls={showCalls calls}")
+    | _, _ => ((), "parse-error")
+  | "R" :: n :: ch :: rf :: base :: inclen :: rest =>
+    match n.toNat?, base.toNat?, inclen.toNat?, parseAnss rest with
+    | some n, some base, some inclen, some as =>
+      let (st, r, calls) := flatRead (ch == "1") (rf == "1") base (as.length + 2) (rInit n (List.replicate inclen 0)) as []
+      ((), s!"res={showRRes r} read={st.read} left={st.left} got={st.got.length} calls={showCalls calls}")
+    | _, _, _, _ => ((), "parse-error")
+  | _ => ((), "parse-error")
+
+def main : IO Unit := runLoop () step
